@@ -12,6 +12,8 @@
    The full statement is FALSE for ndp v1.1.0 on two input classes (known findings, C03_*_refuted); the
    theorem is proved for their complement [ndp_okb]. *)
 From CR Require Import Model.Build Model.Wire Model.CfgWfBuild Proofs.Wire.
+(* the code computes instants and durations on one clock (extracted): one_clock in Properties/Clock.v *)
+From CR Require Properties.Clock.
 Local Open Scope Z_scope.
 
 (* every RA built from an accepted configuration is wire_ok ... *)
